@@ -90,21 +90,21 @@ def oracle(ctx, obs):
                 ctx.violation("S5", f"{call} is not finite: {v}", {"kind": "finite", "window": kind}, rep)
                 continue
             wide = kind in WIDTH and fh(ap["p"]) >= 1.0
-            if kind != "Interpolate" and abs(v - vn) > 1e-15:
+            if kind != "Interpolate" and abs(v - vn) > TOL * max(1.0, abs(v)):
                 ctx.violation("S5", f"{call} = {v!r} but at -z it is {vn!r}: the window is not even", {"kind": "even", "window": kind}, rep)
             if is_unit(ap) or wide:
-                if z == 0.0 and abs(v - 1) > 1e-15:
+                if z == 0.0 and abs(v - 1) > TOL:
                     ctx.violation("S5", f"{call} = {v!r} at the centre, expected 1", {"kind": "centre", "window": kind}, rep)
                 if not (-TOL <= v <= 1 + TOL):
                     ctx.violation("S5", f"{call} = {v!r} is outside [0, 1]", {"kind": "range", "window": kind}, rep)
-            if kind == "Off" and v != 1.0:
+            if kind == "Off" and abs(v - 1.0) > TOL:
                 ctx.violation("S5", f"{call} = {v!r}: no apodization must weigh 1 everywhere", {"kind": "off", "window": kind}, rep)
             if o.get("half_point") and abs(v - 0.5) > TOL:
                 ctx.violation("S5", f"{call} = {v!r} at half the FWHM from the centre (z = fwhm/L), expected 1/2",
                               {"kind": "gaussian_half", "window": kind}, rep)
         elif k == "win_pp_off":
             ctx.seen(("ppoff", o["z"]), nontrivial=False)
-            if fh(o["v"]) != 1.0:
+            if abs(fh(o["v"]) - 1.0) > TOL:
                 ctx.violation("S5", f"PeriodicPoling::Off.integration_constant({fh(o['z'])!r}) = {fh(o['v'])!r}, expected 1",
                               {"kind": "off", "window": "pp_off"}, {"z": fh(o["z"]), "value": fh(o["v"])})
         elif k == "interp":
@@ -114,10 +114,14 @@ def oracle(ctx, obs):
             ctx.count(f"interp:n={len(vals)}")
             exp = interp_expected(vals, z)
             rep = {"values": [float(x) for x in vals], "z": float(z), "value": v, "expected": float(exp)}
-            if not (v == v) or abs(Fraction(v) - exp) > Fraction(1, 10**12):
+            if not (v == v) or abs(Fraction(v) - exp) > Fraction(1, 10**12) * max(1, abs(exp)):
                 what = "first sample" if z == -1 else "last sample" if z == 1 else "piecewise-linear interpolation of the samples"
                 ctx.violation("S5", f"Apodization::Interpolate({rep['values']}).integration_constant({float(z)!r}) = {v!r}, expected the {what} {float(exp)!r}",
                               {"kind": "interpolate", "n": len(vals)}, rep)
+        elif k == "interp_panic":
+            vals = [fh(v) for v in o["values"]]
+            ctx.violation("S5", f"Apodization::Interpolate({vals}).integration_constant({fh(o['z'])!r}) panicked: {o['msg']}",
+                          {"kind": "interpolate_panic", "n": len(vals)}, {"values": vals, "z": fh(o["z"]), "msg": o["msg"]})
         elif k == "dom":
             oracle_dom(ctx, o)
         elif k == "dom_panic":
@@ -131,7 +135,9 @@ def oracle(ctx, obs):
             oracle_upd(ctx, o)
         elif k == "cfg":
             ctx.seen(("cfg", json.dumps(o["ap"], sort_keys=True)), nontrivial=False)
-            ok = o["cfg_kind"] == o["kind_str"] == o["back_kind"] == o["json_roundtrip_kind"] == o["ap"]["kind"] and fh(o["rel_err"]) <= 1e-15 and o["same_window"]
+            ok = o["cfg_kind"] == o["kind_str"] == o["back_kind"] == o["json_roundtrip_kind"] == o["ap"]["kind"] and fh(o["rel_err"]) <= TOL and abs(fh(o["window_value"]) - fh(o["window_value_back"])) <= TOL * max(1.0, abs(fh(o["window_value"])))
+            if o["ap"]["kind"] == "Gaussian" and (o.get("fwhm_um") is None or abs(fh(o["fwhm_um"]) - fh(o["ap"]["p"]) * 1e6) > 1e-9 * fh(o["ap"]["p"]) * 1e6):
+                ok = False
             if not ok:
                 ctx.violation("S5", f"apodization {ap_desc(o['ap'])} does not survive the config round trip (config kind {o['cfg_kind']}, back {o['back_kind']}, "
                               f"json {o['json_roundtrip_kind']}, relative parameter error {fh(o['rel_err'])!r})", {"kind": "config", "window": o["ap"]["kind"]},
@@ -158,7 +164,7 @@ def oracle_dom(ctx, o):
     if o["len_domains"] != n or o["len_lengths"] != n:
         ctx.violation("S5", f"{call}: domain list has {o['len_domains']} entries and the length list {o['len_lengths']}, but num_domains = {n}",
                       dict(kind="count_len", **sigk), base)
-    if fh(o["stored_period"]) != abs(period):
+    if not (abs(fh(o["stored_period"]) - abs(period)) <= TOL * abs(period)):
         ctx.violation("S5", f"{call} stores period {fh(o['stored_period'])!r}, expected the positive magnitude {abs(period)!r}", dict(kind="stored", **sigk), base)
     # window values at the centres are in [-1,1] for every generated case (width >= 1, samples in [0,1])
     if not o["all_sum_ok"]:
@@ -175,13 +181,13 @@ def oracle_dom(ctx, o):
         i = e["i"]
         p, q, a, zc = fh(e["e"][0]), fh(e["e"][1]), fh(e["a"]), fh(e["zc"])
         rep = dict(base, index=i, pair=[p, q], centre_z=zc, window_at_centre=a)
-        if not (abs(zc - ((2 * i + 1) / n - 1)) <= 4e-16):
+        if not (abs(zc - ((2 * i + 1) / n - 1)) <= TOL):
             ctx.violation("S5", f"{call}: domain {i} of {n} is evaluated at z = {zc!r}, not at its centre {(2*i+1)/n-1!r}", dict(kind="centre_z", **sigk), rep)
         if abs(p + q - 1) > TOL or not (0 <= p <= 1 and 0 <= q <= 1):
             ctx.violation("S5", f"{call}.poling_domains({L!r} m)[{i}] = ({p!r}, {q!r}): fractions must lie in [0,1] and sum to 1", dict(kind="sum", **sigk), rep)
             continue
         d = min(p, q)
-        if d > 0.5 + 1e-15 or abs(math.cos(2 * math.pi * d) - (1 - 2 * a * a)) > TOL or abs(math.sin(math.pi * d) - abs(a)) > 1e-7:
+        if d > 0.5 + TOL or abs(math.cos(2 * math.pi * d) - (1 - 2 * a * a)) > TOL or abs(math.sin(math.pi * d) - abs(a)) > 1e-7:
             ctx.violation("S5", f"{call}.poling_domains({L!r} m)[{i}] = ({p!r}, {q!r}): narrower fraction d = {d!r} has sin(pi d) = {math.sin(math.pi*d)!r}, "
                           f"but the window at the domain centre z = {zc!r} is {a!r}", dict(kind="duty", **sigk), rep)
         if p != q:
@@ -189,11 +195,23 @@ def oracle_dom(ctx, o):
             if (p < q) == second_half:
                 ctx.violation("S5", f"{call}.poling_domains({L!r} m)[{i}] = ({p!r}, {q!r}): wrong order for a domain {'after' if second_half else 'before'} the crystal centre",
                               dict(kind="order", **sigk), rep)
-        if ap["kind"] == "Off" and (p, q) != (0.5, 0.5):
+        if ap["kind"] == "Off" and (abs(p - 0.5) > TOL or abs(q - 0.5) > TOL):
             ctx.violation("S5", f"{call}.poling_domains({L!r} m)[{i}] = ({p!r}, {q!r}): no apodization must give a 50 % duty cycle", dict(kind="duty_off", **sigk), rep)
         l1, l2 = fh(e["len"][0]), fh(e["len"][1])
-        if abs(l1 - p * abs(period)) > 1e-15 * abs(period) or abs(l2 - q * abs(period)) > 1e-15 * abs(period):
+        if abs(l1 - p * abs(period)) > TOL * abs(period) or abs(l2 - q * abs(period)) > TOL * abs(period):
             ctx.violation("S5", f"{call}.poling_domain_lengths({L!r} m)[{i}] = ({l1!r}, {l2!r}) is not the pair of fractions times the period", dict(kind="lengths", **sigk), rep)
+
+
+def same_apod(a, b):
+    """equal kinds and parameters (parameters to 1e-12 relative; they are moved, not recomputed, by the update operations)"""
+    if a["kind"] != b["kind"]:
+        return False
+    if "values" in a or "values" in b:
+        va, vb = a.get("values", []), b.get("values", [])
+        return len(va) == len(vb) and all(abs(fh(x) - fh(y)) <= TOL * max(1.0, abs(fh(x))) for x, y in zip(va, vb))
+    if "p" in a or "p" in b:
+        return "p" in a and "p" in b and abs(fh(a["p"]) - fh(b["p"])) <= TOL * max(abs(fh(a["p"])), 1e-300)
+    return True
 
 
 def request_step(req, op):
@@ -216,6 +234,7 @@ def oracle_upd(ctx, o):
         sp = fh(o["init"]["signed_period"])
         req = (sp, st["apodization"])
     hist = []
+    nviol0 = len(ctx.violations)
     ctx.count("upd:from_off" if not st["on"] else "upd:from_on")
     for s in o["steps"]:
         op = s["op"]
@@ -235,15 +254,19 @@ def oracle_upd(ctx, o):
             ctx.violation("S5", f"after {hist}: poling is off but period {p!r} was requested", sig, rep)
             continue
         sign_ok = stt["sign"] == ("NEGATIVE" if p < 0 else "POSITIVE")
-        if not (fh(stt["period"]) > 0 and fh(stt["period"]) == abs(p) and sign_ok):
+        if not (fh(stt["period"]) > 0 and abs(fh(stt["period"]) - abs(p)) <= TOL * abs(p) and sign_ok):
             ctx.violation("S5", f"after {op['op']} (last requested period {p!r} m): stored period {fh(stt['period'])!r} with sign {stt['sign']}; expected "
                           f"positive magnitude {abs(p)!r} and sign {'NEGATIVE' if p < 0 else 'POSITIVE'}", dict(sig, what="sign"), rep)
-        if stt["apodization"] != ap or a["apodization"] != ap:
+        if not same_apod(stt["apodization"], ap) or not same_apod(a["apodization"], ap):
             ctx.violation("S5", f"after {op['op']}: apodization is {ap_desc(stt['apodization'])}, the last requested one is {ap_desc(ap)}", dict(sig, what="apodization"), rep)
-        if fh(a["signed_period"]) != p:
+        if not (abs(fh(a["signed_period"]) - p) <= TOL * abs(p)):
             ctx.violation("S5", f"after {op['op']}: signed_period() = {fh(a['signed_period'])!r}, expected the requested {p!r}", dict(sig, what="signed_period"), rep)
         if a["k_eff"] == "panic" or abs(fh(a["k_eff"]) - 2 * math.pi / p) > 1e-12 * abs(2 * math.pi / p):
             ctx.violation("S5", f"after {op['op']}: k_eff() = {a['k_eff'] if a['k_eff'] == 'panic' else fh(a['k_eff'])!r}, expected 2 pi / {p!r}", dict(sig, what="k_eff"), rep)
+        if len(ctx.violations) > nviol0:
+            # judge the following operations on their own: continue from the state the implementation is actually in
+            req = (fh(a["signed_period"]), stt["apodization"]) if stt["on"] else None
+            nviol0 = len(ctx.violations)
 
 
 # ------------------------------------------------------------------------------------------------ S4 correspondence
